@@ -49,6 +49,12 @@ Error Builder::finalize() {
   Assembler a(_code);
   a.add_encoding_options(encoding_options());
   a.add_diagnostic_options(diagnostic_options());
+
+  // An error handler attached to this emitter (and not to the CodeHolder) must also see serialization errors.
+  if (has_own_error_handler()) {
+    a.set_error_handler(error_handler());
+  }
+
   return serialize_to(&a);
 }
 
